@@ -192,6 +192,54 @@ def run(ctx):
                 res.violation("REJECT-WHOLE", MAT_FN, f"malformed={kind},bad-row-is-first={bad_row == 0}", f"matrix of side {size} with {'row ' + str(bad_row) + ' of length ' + str(size + delta) if kind == 'row' else ('rows ' + str(bad_row) + ' one cell too long / too short' if kind == 'rows-cancel' else 'side array of length ' + str(size + delta))}: {why}",
                               replay=f"from edgegraph.structure import *\nfrom edgegraph.builder.adjmatrix import load_adj_matrix\nvs = [Vertex() for _ in range({size})]\nm = [[1]*{size} for _ in range({size})]\n" + (f"m[{bad_row}] = [1]*{size + delta}\n" if kind == "row" else (f"m[{bad_row[0]}] = [1]*{size + 1}; m[{bad_row[1]}] = [1]*{size - 1}\n" if kind == "rows-cancel" else f"vs = vs[:{size + delta}] if {delta} < 0 else vs + [Vertex()]\n")) + "try:\n    load_adj_matrix(m, vs)\nexcept ValueError: pass\nprint([v.universes for v in vs])")
     res.rule("BUILD-MATRIX", m)
+    # ---------------- sizes the tree names (and a default one beyond the small scope): a key with n listed neighbours, n keys (some
+    # with empty rows, one named by nobody), an n x n matrix with a full first row - a builder or a query underneath that switches
+    # path once a collection passes some size
+    k = 0
+    for size in common.scale_sizes(ctx, res):
+        if size > common.HUB_CAP + 1:
+            continue
+        names = [f"v{i}" for i in range(size + 1)]
+        for lt in ("DirectedEdge", "UnDirectedEdge"):
+            for shape in ("wide-row", "many-keys", "matrix"):
+                try:
+                    V, P, W = world(h, names)
+                    pre = snapshot(V)
+                    want_members, want = [], {kk: {"links": list(v["links"]), "universes": list(v["universes"])} for kk, v in pre.items()}
+                    if shape == "matrix":
+                        side = names[:size]
+                        rows_ = [[1 if (i == 0 or j == (i + 1) % size or (i == j and i % 3 == 1)) else 0 for j in range(size)] for i in range(size)]
+                        out = h.call(fmat, Seq([Seq(list(r), "list") for r in rows_], "list"), Seq([V[x] for x in side], "list"), h.cls(lt))
+                        pairs = [(side[i], side[j]) for i in range(size) for j in range(size) if rows_[i][j]]
+                        want_members = list(side)
+                    else:
+                        if shape == "wide-row":
+                            adjn = [(names[0], names[1:size + 1])] + [(names[1], [names[0]])]      # v0 lists n neighbours; v1 points back
+                        else:
+                            # n keys; every third row is empty and its key is named by nobody else; the others name the key three further on
+                            adjn = [(names[i], ([names[(i + 3) % size]] if i % 3 else [])) for i in range(size)]
+                        out = h.call(fdict, DictV([[V[kk], Seq([V[x] for x in row], "list")] for kk, row in adjn]), h.cls(lt))
+                        pairs = [(kk, x) for kk, row in adjn for x in row]
+                        for kk, row in adjn:
+                            for x in [kk] + list(row):
+                                if x not in want_members:
+                                    want_members.append(x)
+                    for p_, q_ in pairs:
+                        want[p_]["links"].append((lt, (p_, q_)))
+                        if q_ != p_:
+                            want[q_]["links"].append((lt, (p_, q_)))
+                except Unknown as u:
+                    res.ob(False)
+                    res.undecide(f"builders at size {size} ({shape}, {lt}): {u}")
+                    continue
+                k += 1
+                why = compare(out, V, want, want_members, h) or readback(h, V, want, lt) or prior_universe(W, names)
+                res.ob(why is None, sig=("scale", size, shape, lt))
+                if why:
+                    res.violation("BUILD-SCALE", MAT_FN if shape == "matrix" else DICT_FN, f"shape={shape},size={size},linktype={lt}",
+                                  {"wide-row": f"load_adj_dict with one key listing {size} neighbours (and one of them pointing back)", "many-keys": f"load_adj_dict with {size} keys, every third row empty and its key named by no other row",
+                                   "matrix": f"load_adj_matrix with a {size} x {size} matrix (full first row, a ring, some self-entries)"}[shape] + f", {lt}: {why}")
+    res.rule("BUILD-SCALE", k)
     from rules import structural
     structural.validate_first(ctx, MAT_FN)
     common.vacuity(res, "BUILD-DICT", 200)
